@@ -379,6 +379,26 @@ theorem clean_of_no_backslash (s : Str) (h : ∀ c ∈ s, c ≠ '\\') : Clean s 
   have := unquote_pieces [.seg s] (by intro p hp; simp at hp; subst hp; exact h)
   simpa [Clean, piecesText, piecesContent, Piece.text, Piece.content] using this
 
+/-- `pat` occurs nowhere in `s`. -/
+def NoOcc (pat s : Str) : Prop := ∀ k, pat.isPrefixOf (s.drop k) = false
+
+theorem removeAllAux_of_noOcc (pat : Str) (n : Nat) (s : Str) (h : NoOcc pat s) : removeAllAux pat n s = s := by
+  induction n generalizing s with
+  | zero => rfl
+  | succ n ih =>
+    cases s with
+    | nil => rfl
+    | cons c rest =>
+      have h0 : pat.isPrefixOf (c :: rest) = false := h 0
+      have hrest : NoOcc pat rest := fun k => h (k + 1)
+      simp [removeAllAux, h0, ih rest hrest]
+
+/-- A string in which no backslash stands directly in front of a line break (CR or LF) is clean. -/
+theorem clean_of_noOcc (s : Str) (h1 : NoOcc ['\\', '\r', '\n'] s) (h2 : NoOcc ['\\', '\n'] s) : Clean s := by
+  unfold Clean unquote
+  simp only [drop_dropLast_quote, removeAll]
+  rw [removeAllAux_of_noOcc _ _ s h1, removeAllAux_of_noOcc _ _ s h2]
+
 theorem parseStr_quote {s : Str} (h : Clean s) : parseStr (.str (quote s)) = .ok s := by
   simp only [parseStr]; rw [h]
 
